@@ -152,7 +152,7 @@ def analyse(cpu, mode, n, spec, E, recs, res, tier):
             res["unsupported_paths"] += 1
             res.setdefault("notes", []).append("engine limit on %s %s: %s" % (cpu, spec.format if spec else "-", str(r.exc)[:100]))
             continue
-        data = decx.model_bytes(r.pc, n)
+        data = decx.canonical_bytes(r.pc, n) or decx.model_bytes(r.pc, n)
         if data is None:
             res["inconclusive"] += 1
             continue
@@ -165,9 +165,10 @@ def analyse(cpu, mode, n, spec, E, recs, res, tier):
         i = r.ins
         res["mnemonics"][str(i.mnemonic)] = res["mnemonics"].get(str(i.mnemonic), 0) + 1
         # (b) post-decode stages on witnesses of this path: a model, and a second model that differs in the free bytes
+        # canonical witnesses (lexicographically smallest and largest input of the path): independent of solver model choice
         wits = [data]
-        alt = decx.model_bytes(r.pc, n, extra=[z3.Or(*[decx.bvar(k) != data[k] for k in range(n)])] if n else [])
-        if alt is not None:
+        alt = decx.canonical_bytes(r.pc, n, high=True)
+        if alt is not None and alt != data:
             wits.append(alt)
         for w in wits:
             stage_checks(cpu, mode, w, fmts, res)
